@@ -293,6 +293,8 @@ def layer_a_plen_units(quick: bool) -> List[Tuple[str, List[Dict[str, Any]]]]:
         ("A_UINT32", None, [0, 1, 255, 256, 65535, 70000, 1 << 31]),
         ("A_INT32", None, [0, 1, -1, 127, 128, -128, -129, 40000]),
         ("A_BYTEFIELD", None, [b"", b"\x41", b"\x00\xff", b"\x01\x02\x03"]),
+        ("A_FLOAT32", None, [1.5, 0.0, -2.0]),  # the length of floats is implied by their type
+        ("A_FLOAT64", None, [1.5, 0.0]),
         ("A_ASCIISTRING", None, ["", "A", "Az", "A\xe9z"]),
         ("A_UTF8STRING", None, ["", "A", "A\xe9", "\u20ac"]),
         ("A_UNICODE2STRING", None, ["", "A", "A€"]),
@@ -486,6 +488,8 @@ def templates() -> Dict[str, Any]:
         lambda i: [P("TABLE-KEY", "tk", table="T", id=f"L.TK.@PID@.{i}"), P("VALUE", f"tin{i}", dop="S_tk"), P("TABLE-STRUCT", f"tout{i}", key="tk", key_id=f"L.TK.@PID@.{i}")])
     reg("TKS", None, lambda i: [{f"ts{i}": ("r1", _item(1, 2))}, {f"ts{i}": ("r2", 0x1234)}, {f"ts{i}": ("r3", {"a": 9, "b": 0xBEEF}), f"tk{i}": "r3"}],
         lambda i: [P("TABLE-KEY", f"tk{i}", table="T", id=f"L.TK.@PID@.{i}"), P("TABLE-STRUCT", f"ts{i}", key=f"tk{i}", key_id=f"L.TK.@PID@.{i}")])
+    reg("TKSN", None, lambda i: [{f"tn{i}": ("r1", _item(1, 2))}, {f"tn{i}": ("r2", 0x1234)}],  # the table is referenced by short name
+        lambda i: [P("TABLE-KEY", f"tkn{i}", table="T", snref=True, id=f"L.TK.@PID@.{i}"), P("TABLE-STRUCT", f"tn{i}", key=f"tkn{i}", key_id=f"L.TK.@PID@.{i}")])
     reg("TKSROW", None, lambda i: [{f"tsr{i}": ("r2", 0x1234)}],
         lambda i: [P("TABLE-KEY", f"tkr{i}", table="T", row="r2", id=f"L.TK.@PID@.{i}"), P("TABLE-STRUCT", f"tsr{i}", key=f"tkr{i}", key_id=f"L.TK.@PID@.{i}")])
     reg("SFLAT", 3, lambda i: [{f"sf{i}": {"a": 1, "b": 0x1234}}, {f"sf{i}": {"a": 255, "b": 0}}], lambda i: [P("VALUE", f"sf{i}", dop="S_flat")])
@@ -505,7 +509,7 @@ def templates() -> Dict[str, Any]:
         lambda i: [P("VALUE", f"mx{i}", dop="MUXd")])
     reg("MUXf", None, lambda i: [{f"mf{i}": ("c0", {"a": 4})}, {f"mf{i}": (1, {"a": 4})}, {f"mf{i}": (0, {"a": 4})}, {f"mf{i}": (5, _item(1, 2))},
                                  {f"mf{i}": (2, _item(1, 2))}, {f"mf{i}": (9, {})}], lambda i: [P("VALUE", f"mf{i}", dop="MUXf")])
-    reg("MUXn", None, lambda i: [{f"my{i}": ("c0", _item(1, 2))}, {f"my{i}": ("c1", {"a": 3, "b": 0x1234})}], lambda i: [P("VALUE", f"my{i}", dop="MUXn")])
+    reg("MUXn", None, lambda i: [{f"my{i}": ("c0", _item(1, 2))}, {f"my{i}": ("c1", {"a": 3, "b": 0x1234})}, {f"my{i}": (9, {"a": 4})}], lambda i: [P("VALUE", f"my{i}", dop="MUXn")])
     reg("MUXe", None, lambda i: [{f"mz{i}": ("c0", _item(1, 2))}, {f"mz{i}": ("c1", {})}, {f"mz{i}": ("dflt", {"a": 4})}],
         lambda i: [P("VALUE", f"mz{i}", dop="MUXe")])
     def _d(a: int, sv: bytes) -> Dict[str, Any]:
@@ -551,7 +555,7 @@ def templates() -> Dict[str, Any]:
 
 
 SIGMA_FULL = ["CC8", "CC16L", "CCNIB", "PC", "V8", "V12b", "V8b4", "VF32", "SLK", "VLIN", "VDEF", "VTT", "RES8", "RES4", "SYS", "LK", "TKS", "TKSROW", "SFLAT",
-              "SSUB", "SNEST", "SSIZED", "SF2", "SF2p", "DL1", "DL2", "EOP", "EMLAST", "EMCC", "MUXd", "MUXn", "MUXe", "MUXf", "SDYN", "EOPD", "DLD", "EMD", "MUXD", "EOPDE", "EOPLK", "SKB2", "SKB4", "VLDEF", "DTC", "DTCENV", "BZ", "BEOP", "LEAD", "SFV", "EMT", "EMTC", "TKS2", "CCMM", "LKSAME", "RES72", "MUXo", "TKSAME", "DTCL"]
+              "SSUB", "SNEST", "SSIZED", "SF2", "SF2p", "DL1", "DL2", "EOP", "EMLAST", "EMCC", "MUXd", "MUXn", "MUXe", "MUXf", "SDYN", "EOPD", "DLD", "EMD", "MUXD", "EOPDE", "EOPLK", "SKB2", "SKB4", "VLDEF", "DTC", "DTCENV", "BZ", "BEOP", "LEAD", "SFV", "EMT", "EMTC", "TKS2", "CCMM", "LKSAME", "RES72", "MUXo", "TKSAME", "DTCL", "TKSN"]
 SIGMA_SYS = ["SYTS", "SYMINU", "SYHOUR", "SYTZ", "SYDAY", "SYWEEK", "SYMONT", "SYYEAR", "SYCENT", "SYTEST", "SYUSER"]
 SIGMA_3 = ["CC8", "V8", "V12b", "V8b4", "VDEF", "RES8", "LK", "TKS", "SFLAT", "SSIZED", "SF2p", "DL1", "EOP", "MUXd", "DTCENV", "BZ", "SDYN", "EOPD"]
 SIGMA_4 = ["CC8", "V12b", "SSIZED", "DL1", "MUXd", "BZ"]
